@@ -154,12 +154,23 @@ func runC15(c *ctx) error {
 	rng := c.rng.Fork()
 	for mask := 0; mask < 1<<len(kindKeys); mask += stride {
 		for _, ty := range types {
-			for variant := 0; variant < 2; variant++ {
+			for variant := 0; variant < 3; variant++ {
 				o := ordered.NewMap[string, any](8)
 				keys := map[string]bool{}
 				var keyList []any
 				var extras []extraKV
-				if variant == 1 {
+				order := make([]int, len(kindKeys))
+				for i := range order {
+					order[i] = i
+				}
+				if variant == 2 {
+					// the kind keys in a shuffled document order: the rule looks at membership, not position
+					for i := len(order) - 1; i > 0; i-- {
+						j := rng.Intn(i + 1)
+						order[i], order[j] = order[j], order[i]
+					}
+				}
+				if variant >= 1 {
 					n := 1 + rng.Intn(3)
 					for i := 0; i < n; i++ {
 						extras = append(extras, core.Pick(rng, c15Extras))
@@ -182,8 +193,9 @@ func runC15(c *ctx) error {
 					o.Set("type", ty.v)
 					keyList = append(keyList, "type")
 				}
-				for i, k := range kindKeys {
-					if mask&(1<<i) != 0 {
+				for i, ki := range order {
+					k := kindKeys[ki]
+					if mask&(1<<ki) != 0 {
 						o.Set(k, kindKeyValue(k))
 						keys[k] = true
 						keyList = append(keyList, k)
@@ -226,11 +238,14 @@ func runC15(c *ctx) error {
 					}
 				}
 				sess.Add(vl.Escape("select "+vl.Enc(keyList)+" "+vl.Enc(tv)), got)
-				c.res.Case(fmt.Sprintf("%d/%s/%v", mask, ty.tag, sortedExtra(extras)), mask != 0 || ty.has)
+				c.res.Case(fmt.Sprintf("%d/%s/%v/%v", mask, ty.tag, sortedExtra(extras), order), mask != 0 || ty.has)
 				c.res.Hist("type." + strings.SplitN(ty.tag, ":", 2)[0])
 				c.res.Hist("result." + got)
-				if variant == 1 {
+				if variant >= 1 {
 					c.res.Hist("with-extra-keys")
+				}
+				if variant == 2 {
+					c.res.Hist("kind-keys-shuffled")
 				}
 				if mask == 0b1000001001 && ty.tag == "absent" && variant == 0 {
 					c.res.Sample(desc)
@@ -265,7 +280,7 @@ func runC15(c *ctx) error {
 	}
 	c.res.Sample(map[string]any{"scalar": "waiter"})
 	c.res.Exhaustive = true
-	c.res.Rule = "every subset of the ten kind keys x every type value (9 known, 4 unknown strings, 4 non-strings, absent), each once plain and once with 1-3 extra keys from an adversarial pool at a random position, through the real stepFromMap; all scalar strings of a pool through unmarshalStep. Non-trivial = at least one kind key or a type; distinct by (subset, type, extras)."
+	c.res.Rule = "every subset of the ten kind keys x every type value (9 known, 4 unknown strings, 4 non-strings, absent), each once plain, once with 1-3 extra keys from an adversarial pool at a random position, and once with the kind keys in a shuffled document order, through the real stepFromMap; all scalar strings of a pool through unmarshalStep. Non-trivial = at least one kind key or a type; distinct by (subset, type, extras)."
 	mm, total, err := core.RunSessions(c.driver, []*core.Session{sess}, 20, 0)
 	c.res.ModelRequests = total
 	c.res.Mismatches = mm
